@@ -605,8 +605,8 @@ def c19(tier):
     if rc != 0 or vlib.has_tlc_error(text) or 'No error has been found' not in text:
         raise Infra('SortConflict.tla: the design argument fails (specification-level, not a verdict about the code):\n' + text[-2500:])
     sort_states = dist
-    sizes = scale(tier, '{2, 3, 5, 12, 13, 33}', '{2, 3, 4, 5, 6, 7, 8, 9, 10, 11, 12, 13, 14, 20, 33, 40, 64}')
-    cfg = m1.write_cfg('Conflict_run.cfg', dict(Sizes=sizes, AllPairsUpTo=scale(tier, 5, 14)), extra='INVARIANT Emit\nINVARIANT PriosOK')
+    sizes = scale(tier, '{2, 3, 5, 12, 13, 33}', '{2, 3, 4, 5, 6, 8, 12, 13, 33, 64}')
+    cfg = m1.write_cfg('Conflict_run.cfg', dict(Sizes=sizes, AllPairsUpTo=scale(tier, 5, 8)), extra='INVARIANT Emit\nINVARIANT PriosOK')
     out = os.path.join(vlib.sub('sim'), 'conflict.out')
     text, gen, dist, rc = vlib.tlc('Conflict', cfg, timeout=1500, workers=1, outfile=out, tag='cf')
     ncases = sum(1 for ln in open(out, errors='replace') if ln.startswith('"CASE '))
